@@ -10,8 +10,14 @@ TRACE_SET = ("write,writev,pwrite64,fsync,fdatasync,link,linkat,rename,renameat,
 DIRS = {"": 0, "verify": 1, "sst": 2, "compaction": 3, "trash": 4, "ingest": 5, "tmp": 6, "mani": 7}
 
 
+PUREHEX = re.compile(r"^(?:\\x[0-9a-f]{2})*$")
+FASTWRITE = re.compile(r'^write\((\d+<[^>]*>), "((?:\\x[0-9a-f]{2})*)", (\d+)\)\s+=\s+(-?\d+)(.*)$')
+
+
 def unesc(s):
     """strace -xx string literal body -> bytes"""
+    if len(s) > 256 and PUREHEX.match(s):
+        return bytes.fromhex(s.replace("\\x", ""))
     out = bytearray()
     i = 0
     while i < len(s):
@@ -201,6 +207,23 @@ def parse_trace(path, root_abs, root_rel):
                     ev, head = pending.pop(pid)
                     finish(ev, mr.group(1), head + mr.group(2), mr.group(3), mr.group(4))
                 continue
+            if len(rest) > 4096 and rest.startswith("write("):
+                mf = FASTWRITE.match(rest)
+                if mf:
+                    ev = Ev()
+                    ev.sys, ev.pid, ev.kind, ev.p1, ev.p2, ev.data, ev.failed, ev.marker, ev.flags, ev.pk = "write", pid, None, None, None, None, False, None, None, 0
+                    counts["write"] = counts.get("write", 0) + 1
+                    ev.nth = counts["write"]
+                    evs.append(ev)
+                    ev.failed = mf.group(4).startswith("-")
+                    ev.data = bytes.fromhex(mf.group(2).replace("\\x", ""))
+                    ev.p1 = rel(fdpath(mf.group(1)))
+                    if ev.p1 is not None:
+                        ev.kind = "write" if ev.failed or int(mf.group(4)) == len(ev.data) else "shortwrite"
+                        key = (pid, "write", ev.p1)
+                        pcounts[key] = pcounts.get(key, 0) + 1
+                        ev.pk = pcounts[key]
+                    continue
             mc = CALL.match(rest)
             if mc:
                 name = mc.group(1)
